@@ -121,6 +121,9 @@ def make_param(eng, kind, hint):
         return eng.fresh_optrid(hint)
     if kind == "slice":
         return SV(None, "slice")
+    if kind in ("asgpred", "asgfun"):
+        from . import enumth as EN
+        return EN.AbstractFn("valid" if kind == "asgpred" else "value")
     if kind == "newresults":
         from . import lists as LS
         o = eng.alloc(PObj(eng.db.classes["AnnealResults"]))
@@ -196,6 +199,9 @@ def value_matches_kind(eng, v, kind):
         return isinstance(v, SV) and v.t == "slice"
     if kind == "rid":
         return isinstance(v, SV) and v.t == "rid"
+    if kind in ("asgpred", "asgfun"):
+        from . import enumth as EN
+        return isinstance(v, EN.AbstractFn) and v.kind == ("valid" if kind == "asgpred" else "value")
     return None       # remaining kinds of the list theory: not judged
 
 
@@ -668,6 +674,17 @@ def _run_path(eng, c, cl, inst, cls):
         same = _unchanged(eng, cur, oldv)
         if same is not True:
             fgoal.append(same)
+    if fgoal and os.environ.get("QVC_FRAME_DEBUG"):
+        for key, oldv in snap.items():
+            if key in covered or key in modified_ok:
+                continue
+            cur = _current_of(eng, key, env)
+            if cur is None:
+                continue
+            same = _unchanged(eng, cur, oldv)
+            if same is not True:
+                kd = (type(eng._objs.get(key)).__name__ + ":" + str(same)[:300]) if not isinstance(key, tuple) else (type(eng._objs.get(key[0])).__name__, key[1])
+                eng.oblige("%s/frame.%s" % (qn, kd), same, note=str(kd))
     if fgoal:
         eng.oblige("%s/frame" % qn, z3.And(*fgoal), note="arguments not named in effects/modifies are unchanged")
     else:
